@@ -2,4 +2,4 @@ SPECIFICATION Spec
 CONSTANTS
   MaxLen = 2
   Emit = TRUE
-INVARIANTS Defined Conserves NoOp Whole ClampLine
+INVARIANTS Defined Conserves NoOp Whole ClampLine RangeLengthAgrees
